@@ -1064,6 +1064,16 @@ def l3_argument_effects(chk, ctx, rng, tier):
             def mk(C):
                 return S.from_phi, dict(phi=phi.copy(), ns=C('ns', 'index', nsf), xxs=C('xxs', 'seq', [xx.copy() for _ in range(dim)]), pop_ids=C('pop_ids', 'seq', ids))
             arg_case(chk, rng, 'Spectrum', 'from_phi', dict(dim=dim), mk)
+            # inbreeding: the coefficients include the special values 0 and 1 (complete selfing: the library caps F just below 1 —
+            # in a private array, never in the caller's), every container kind incl. float64 arrays and strided views of them
+            for special in ((1.0,), (0.0, 1.0)):
+                Fs_ = [float(rng.uniform(0.05, 0.9)) for _ in range(dim)]
+                for v_, j_ in zip(special, rng.permutation(dim)): Fs_[int(j_)] = v_
+                nsi = [2 * int(rng.integers(1, 3)) for _ in range(dim)]
+                def mk(C):
+                    return S.from_phi_inbreeding, dict(phi=phi.copy(), ns=C('ns', 'index', nsi), xxs=C('xxs', 'seq', [xx.copy() for _ in range(dim)]),
+                                                       Fs=C('Fs', 'real', Fs_), ploidys=C('ploidys', 'index', [2] * dim))
+                arg_case(chk, rng, 'Spectrum', 'from_phi_inbreeding', dict(dim=dim, F='+'.join('%g' % v_ for v_ in special)), mk, primary=('Fs',))
 
 # ---------------------------------------------------------------- (iv'') demes calls
 # Class: the demes front end (`Demes.SFS`, `Spectrum.from_demes`), the graph utilities and the exporter `Demes.output` leave
